@@ -65,6 +65,7 @@ class Spy:
                 return super().get_cluster_mol_ids(*a, **kw)
 
             def save(self, path, *a, **kw):       # pickles by class reference: save as the real class
+                spy.log.append(("save_tree",))
                 self.__class__ = spy.real
                 spy.bbm.BitBirch = spy.real
                 try:
@@ -93,13 +94,15 @@ def call_term(c):
         return f"(ARefine {cz(c[1])})"
     if c[0] == "recluster":
         return "ARecluster"
+    if c[0] == "save_tree":
+        return "ASaveTree"
     return "ASave"
 
 
 def opts_term(o):
     return (f"(mkRunOpts {NAMES[o['merge']]} {NAMES[o['refine_merge']]} {cfloat(o['tol'])} {cfloat(o['thr'])} "
             f"{cz(o['bf'])} {cfloat(o['change'])} {cz(o['refine_num'])} {copt(o['refine_rounds'], cz)} "
-            f"{cz(o['recluster_rounds'])})")
+            f"{cz(o['recluster_rounds'])} {cbool(bool(o.get('save_tree')))})")
 
 warnings.filterwarnings("ignore")
 
@@ -138,6 +141,37 @@ def gen_run_opts(rng):
     }
 
 
+def run_factors(o):
+    """coarse factors of a `bb run` option set, for pairwise covering"""
+    rounds = o["refine_rounds"] if o["refine_rounds"] is not None else (1 if o["refine_num"] > 0 else 0)
+    return (("refine", rounds > 0), ("recluster", o["recluster_rounds"] > 0), ("save_tree", o["save_tree"]),
+            ("save_centroids", o["save_centroids"]), ("copy", o["copy"]), ("packed", o["packed"]),
+            ("single_file", o["single_file"]), ("monitor", o["monitor"]), ("overwrite", o["overwrite"]),
+            ("dirty", o["dirty"] is not None), ("change", o["change"] != 0.0),
+            ("switch_merge", o["merge"] != o["refine_merge"]), ("nf_mult8", o["nf"] % 8 == 0))
+
+
+def covering_run_opts(rng, n):
+    """n option sets: greedily chosen from random candidates so that every pair of factor values
+    occurs (the property quantifies over pairwise-covering combinations), then random ones"""
+    cands = [gen_run_opts(rng) for _ in range(40 * n)]
+    covered, chosen = set(), []
+
+    def pairs(o):
+        f = run_factors(o)
+        return {(f[i], f[j]) for i in range(len(f)) for j in range(i + 1, len(f))}
+    while len(chosen) < n and cands:
+        best = max(cands, key=lambda o: len(pairs(o) - covered))
+        if not pairs(best) - covered:
+            break
+        covered |= pairs(best)
+        chosen.append(best)
+        cands.remove(best)
+    while len(chosen) < n:
+        chosen.append(gen_run_opts(rng))
+    return chosen
+
+
 def api_run(o, paths):
     """the documented API sequence for the same parameters"""
     from bblean import BitBirch
@@ -158,6 +192,9 @@ def api_run(o, paths):
         for _ in range(o["recluster_rounds"]):
             tree.recluster_inplace(shuffle=False)
     out = tree.get_centroids_mol_ids()
+    api_run.last_tree = (float(tree.threshold), str(tree.merge_criterion), int(tree.branching_factor),
+                         int(tree.num_fitted_fps),
+                         [np.unpackbits(c, count=o["nf"]).tolist() for c in tree.get_centroids()])
     return ([[int(i) for i in c] for c in out["mol_ids"]],
             [np.unpackbits(c, count=o["nf"]).tolist() for c in out["centroids"]])
 
@@ -180,7 +217,7 @@ def run_args(o, in_path, out_dir):
     return a
 
 
-def check_outputs(out_dir, o, ref_cl, ref_ce, input_names, what):
+def check_outputs(out_dir, o, ref_cl, ref_ce, input_names, what, ref_tree=None):
     probs = []
     names = {p.name for p in out_dir.iterdir()}
     if "clusters.pkl" not in names:
@@ -204,6 +241,13 @@ def check_outputs(out_dir, o, ref_cl, ref_ce, input_names, what):
             t = BitBirch.load(out_dir / "bitbirch.pkl")
             if [[int(i) for i in c] for c in t.get_cluster_mol_ids()] != ref_cl and what == "run":
                 probs.append(f"{what}: saved tree does not hold the reported clusters")
+            if what == "run" and ref_tree is not None:
+                got = (float(t.threshold), str(t.merge_criterion), int(t.branching_factor), int(t.num_fitted_fps),
+                       [np.unpackbits(c, count=o["nf"]).tolist() for c in t.get_centroids()])
+                if got != ref_tree:
+                    probs.append(f"{what}: saved tree is not the tree the API sequence produces: (threshold, "
+                                 f"criterion, branching factor, fitted) = {got[:4]}, API tree has {ref_tree[:4]}"
+                                 + ("" if got[4] == ref_tree[4] else "; centroids differ"))
     if "config.json" not in names:
         probs.append(f"{what}: config.json missing")
     else:
@@ -227,8 +271,7 @@ def suite_cli(seed, tier):
     cases = 0
     terms, meta = [], []
     stats = {"run": 0, "multiround": 0, "refused": 0, "overwritten": 0, "monitor": 0}
-    for _ in range(n_run):
-        o = gen_run_opts(rng)
+    for o in covering_run_opts(rng, n_run):
         with tempfile.TemporaryDirectory(prefix="verif_cli_") as tmp:
             tmp = Path(tmp)
             ind = tmp / "in"
@@ -239,6 +282,7 @@ def suite_cli(seed, tier):
             use = [paths[0]] if o["single_file"] else paths
             out = tmp / "out"
             ref_cl, ref_ce = api_run(o, use)
+            ref_tree = api_run.last_tree
             if o["dirty"]:
                 out.mkdir()
                 (out / "old.txt").write_text("precious")
@@ -275,7 +319,7 @@ def suite_cli(seed, tier):
                 stats["overwritten"] += 1
                 if (out / "old.txt").exists():
                     r.bad.append({"suite": "cli", "what": "run: --overwrite left old files in the output directory", "opts": desc})
-            for pr in check_outputs(out, o, ref_cl, ref_ce, [p.name for p in use], "run"):
+            for pr in check_outputs(out, o, ref_cl, ref_ce, [p.name for p in use], "run", ref_tree):
                 r.bad.append({"suite": "cli", "what": pr, "opts": desc})
     for k_mr in range(n_mr):
         import suite_mr
